@@ -27,13 +27,14 @@ struct FaultCtl
 {
 	int armed;          // >0 while a library call made by the interpreter is on the stack
 	int paused;         // >0 while harness code (model, ledger, logging) runs
+	bool off;           // harness callback body in progress (re-enabled around its own library calls)
 	long countdown;     // >0: fire when it reaches 0
 	long passed;        // fault points passed while armed (all kinds)
 	long passedKind[F_KINDS];
 	long firedKind[F_KINDS];
 	int lastFired;      // kind of the last fired fault or -1
 	unsigned mask;      // enabled kinds
-	FaultCtl() : armed(0), paused(0), countdown(0), passed(0), lastFired(-1), mask(0x1f)
+	FaultCtl() : armed(0), paused(0), off(false), countdown(0), passed(0), lastFired(-1), mask(0x1f)
 	{
 		for(int i = 0; i < F_KINDS; ++i) { passedKind[i] = 0; firedKind[i] = 0; }
 	}
@@ -45,7 +46,7 @@ inline FaultCtl & faultCtl() { static FaultCtl f; return f; }
 inline bool faultHit(int kind)
 {
 	FaultCtl & f = faultCtl();
-	if(f.armed <= 0 || f.paused > 0 || !(f.mask & (1u << kind))) return false;
+	if(f.armed <= 0 || f.paused > 0 || f.off || !(f.mask & (1u << kind))) return false;
 	++f.passed; ++f.passedKind[kind];
 	if(f.countdown > 0 && --f.countdown == 0) { ++f.firedKind[kind]; f.lastFired = kind; return true; }
 	return false;
@@ -59,10 +60,20 @@ inline void faultPoint(int kind)
 	}
 }
 
+// around a library call made by the interpreter (also from inside a callback's script)
 struct FaultArm
 {
-	FaultArm() { ++faultCtl().armed; }
-	~FaultArm() { --faultCtl().armed; }
+	bool savedOff;
+	FaultArm() : savedOff(faultCtl().off) { ++faultCtl().armed; faultCtl().off = false; }
+	~FaultArm() { --faultCtl().armed; faultCtl().off = savedOff; }
+};
+
+// body of a harness callback / listener / predicate: harness code, not a fault target
+struct FaultOff
+{
+	bool savedOff;
+	FaultOff() : savedOff(faultCtl().off) { faultCtl().off = true; }
+	~FaultOff() { faultCtl().off = savedOff; }
 };
 
 struct FaultPause
@@ -228,9 +239,12 @@ private:
 
 } // namespace sim
 
+#endif // VERIF_LEDGER_H
+
 // Replacement of the global allocation functions: a counting / failing wrapper over malloc.
 // Defined in exactly one translation unit of a binary that wants allocation faults.
-#ifdef VERIF_REPLACE_NEW
+#if defined(VERIF_REPLACE_NEW) && !defined(VERIF_REPLACE_NEW_DONE)
+#define VERIF_REPLACE_NEW_DONE
 void * operator new(std::size_t n)
 {
 	sim::faultPoint(sim::F_ALLOC);
@@ -261,6 +275,4 @@ void operator delete(void * p, std::size_t) noexcept { std::free(p); }
 void operator delete[](void * p, std::size_t) noexcept { std::free(p); }
 void operator delete(void * p, const std::nothrow_t &) noexcept { std::free(p); }
 void operator delete[](void * p, const std::nothrow_t &) noexcept { std::free(p); }
-#endif
-
 #endif
